@@ -8,7 +8,9 @@ Confirms a seeded change produced by a sub-agent in a scratch worktree (/tmp/wt/
   demo alone        -> everything passes
 then applies patch.diff to /repo (git apply), runs the given quick checks, undoes it (git checkout -- .),
 and stores the seed under /verif/seeded/<seed_id>/ with meta.json."""
-import json, os, re, shutil, subprocess, sys, time
+import fcntl, json, os, re, shutil, subprocess, sys, time
+_lock = open('/tmp/wt/seed_eval.lock', 'w')
+fcntl.flock(_lock, fcntl.LOCK_EX)   # one evaluation at a time (shared scratch worktree and build copy)
 src, sid, prop = sys.argv[1], sys.argv[2], sys.argv[3]
 checks = [prop] + sys.argv[4:]
 WT = '/tmp/wt/confirm'
